@@ -289,6 +289,43 @@ Lemma nwn_v3 dx dy dz :
    if Reqb len 0 then ([dx; dy; dz], 0%R) else ([(dx / len)%R; (dy / len)%R; (dz / len)%R], len)).
 Proof. reflexivity. Qed.
 
+Lemma zseq_app n m : forall lo, zseq lo (n + m) = (zseq lo n ++ zseq (lo + Z.of_nat n) m)%list.
+Proof. induction n; intros; simpl. f_equal. lia. rewrite IHn. do 3 f_equal. lia. Qed.
+
+Lemma zseq_shift n : forall lo d, zseq (lo + d) n = map (fun k => k + d) (zseq lo n).
+Proof. induction n; intros; simpl; auto. f_equal. rewrite <- IHn. f_equal. lia. Qed.
+
+Lemma zseq_range n : forall lo k, In k (zseq lo n) -> lo <= k < lo + Z.of_nat n.
+Proof. induction n; intros lo k Hk; simpl in *. tauto. destruct Hk as [<-|Hk]. lia. apply IHn in Hk. lia. Qed.
+
+Lemma zseq_range0 n : forall lo k, In k (zseq lo n) -> lo <= k < lo + Z.of_nat n.
+Proof. induction n; intros lo k Hk; simpl in *. tauto. destruct Hk as [<-|Hk]. lia. apply IHn in Hk. lia. Qed.
+
+Lemma sparse_dot_app r1 r2 q : sparse_dot (r1 ++ r2) q = (sparse_dot r1 q + sparse_dot r2 q)%R.
+Proof. induction r1; simpl. lra. rewrite IHr1. lra. Qed.
+
+Lemma sparse_dot_map (c : Z -> Z) (v : Z -> R) q n : forall lo,
+  sparse_dot (map (fun k => (c k, v k)) (zseq lo n)) q = zsum (fun k => (v k * q (c k))%R) lo n.
+Proof.
+  unfold zsum. induction n; intros; simpl. reflexivity.
+  rewrite IHn. rewrite (zsum_acc_shift _ n (0 + _)%R). lra.
+Qed.
+
+Lemma zsum_acc_ext g h n : forall acc lo, (forall k, g k = h k) -> zsum_acc acc g lo n = zsum_acc acc h lo n.
+Proof. induction n; intros; simpl; auto. rewrite H. apply IHn; auto. Qed.
+
+Lemma stored_none (r : list (write R)) a i : (forall x, In x r -> w_arr x <> a) -> stored r a i = None.
+Proof.
+  induction r as [|x r IH]; intros Hr; simpl; auto. rewrite IH by (intros; apply Hr; right; auto).
+  destruct (String.eqb_spec (w_arr x) a) as [E|E]; auto. exfalso. apply (Hr x); [left|]; auto.
+Qed.
+
+Lemma stored_app_other (l r : list (write R)) a i : (forall x, In x r -> w_arr x <> a) -> stored (l ++ r) a i = stored l a i.
+Proof. intros Hr. induction l as [|x l IH]; simpl. apply stored_none; auto. rewrite IH. reflexivity. Qed.
+
+Lemma vdot_neg3 j0 j1 j2 u0 u1 u2 : vdot (vneg [j0; j1; j2]) [u0; u1; u2] = (- vdot [j0; j1; j2] [u0; u1; u2])%R.
+Proof. cbn. sR. ring. Qed.
+
 Section Edge.
   Variables (w e nflex : Z) (body_rootid body_dofnum body_dofadr flex_vertadr flex_edgeadr flex_edgenum flex_vertbodyid : Z -> Z)
             (flex_edge : Z -> list Z) (flexedge_J_rowadr flexedge_J_colind : Z -> Z)
@@ -303,6 +340,12 @@ Section Edge.
   Definition wse := k__flex_edges w e nflex body_rootid body_dofnum body_dofadr flex_vertadr flex_edgeadr flex_edgenum
      flex_vertbodyid flex_edge flexedge_J_rowadr flexedge_J_colind qvel_in subtree_com_in cdof_in flexvert_xpos_in
      flexedge_J_out flexedge_length_out flexedge_velocity_out orc.
+
+  Lemma wse_is_kernel : wse = k__flex_edges w e nflex body_rootid body_dofnum body_dofadr flex_vertadr flex_edgeadr flex_edgenum
+     flex_vertbodyid flex_edge flexedge_J_rowadr flexedge_J_colind qvel_in (fun w i => [cx w i; cy w i; cz w i])
+     (fun w i => [a0 w i; a1 w i; a2 w i; l0 w i; l1 w i; l2 w i]) (fun w i => [px w i; py w i; pz w i])
+     flexedge_J_out flexedge_length_out flexedge_velocity_out orc.
+  Proof. reflexivity. Qed.
 
   Variable f0 : Z.
   Hypothesis Hf0 : 0 <= f0 < nflex.
@@ -377,14 +420,10 @@ Section Edge.
   Lemma edge_u_shape : exists x y z, edge_u = [x; y; z].
   Proof. unfold edge_u. destruct (Reqb len 0); do 3 eexists; reflexivity. Qed.
 
-  Lemma vdot_neg3 j0 j1 j2 u0 u1 u2 : vdot (vneg [j0; j1; j2]) [u0; u1; u2] = (- vdot [j0; j1; j2] [u0; u1; u2])%R.
-  Proof. cbn. sR. ring. Qed.
 
   Lemma J1_neg k : J1 k = (- vdot (jacp1 k) edge_u)%R.
   Proof. unfold J1, jacp1, jacp. destruct edge_u_shape as (x & y & z & ->). apply vdot_neg3. Qed.
 
-  Lemma zsum_acc_ext g h n : forall acc lo, (forall k, g k = h k) -> zsum_acc acc g lo n = zsum_acc acc h lo n.
-  Proof. induction n; intros; simpl; auto. rewrite H. apply IHn; auto. Qed.
 
   (* the velocity the kernel writes is  sum_k J1_k qvel[dof1+k] + sum_k J2_k qvel[dof2+k]  *)
   Theorem velocity_is_J_dot_qvel :
@@ -400,14 +439,6 @@ Section Edge.
   Definition krow : list (Z * R) :=
     (map (fun k => (body_dofadr b1 + k, J1 k)) (zseq 0 n1) ++ map (fun k => (body_dofadr b2 + k, J2 k)) (zseq 0 n2))%list.
 
-  Lemma sparse_dot_app r1 r2 q : sparse_dot (r1 ++ r2) q = (sparse_dot r1 q + sparse_dot r2 q)%R.
-  Proof. induction r1; simpl. lra. rewrite IHr1. lra. Qed.
-  Lemma sparse_dot_map (c : Z -> Z) (v : Z -> R) q n : forall lo,
-    sparse_dot (map (fun k => (c k, v k)) (zseq lo n)) q = zsum (fun k => (v k * q (c k))%R) lo n.
-  Proof.
-    unfold zsum. induction n; intros; simpl. reflexivity.
-    rewrite IHn. rewrite (zsum_acc_shift _ n (0 + _)%R). lra.
-  Qed.
 
   Theorem sparse_row_is_velocity : sparse_dot krow (qvel_in w) = velocity.
   Proof. unfold krow. rewrite sparse_dot_app, !sparse_dot_map. symmetry. apply velocity_is_J_dot_qvel. Qed.
@@ -424,12 +455,6 @@ Section Edge.
   Definition mrow : list (Z * R) :=
     map (fun s => (flexedge_J_colind (rowadr + s), slot_val s)) (zseq 0 (n1 + n2)).
 
-  Lemma zseq_app n m : forall lo, zseq lo (n + m) = (zseq lo n ++ zseq (lo + Z.of_nat n) m)%list.
-  Proof. induction n; intros; simpl. f_equal. lia. rewrite IHn. do 3 f_equal. lia. Qed.
-  Lemma zseq_shift n : forall lo d, zseq (lo + d) n = map (fun k => k + d) (zseq lo n).
-  Proof. induction n; intros; simpl; auto. f_equal. rewrite <- IHn. f_equal. lia. Qed.
-  Lemma zseq_range n : forall lo k, In k (zseq lo n) -> lo <= k < lo + Z.of_nat n.
-  Proof. induction n; intros lo k Hk; simpl in *. tauto. destruct Hk as [<-|Hk]. lia. apply IHn in Hk. lia. Qed.
 
   (* PARTIAL: only under the layout hypothesis (the model's colind for this row is exactly
      [dofs of b1] ++ [dofs of b2]) does the row, read the way constraint._equality_flex reads it,
@@ -440,7 +465,7 @@ Section Edge.
     (forall s, 0 <= s < body_dofnum b1 + body_dofnum b2 -> flexedge_J_colind (rowadr + s) = kcol s) ->
     sparse_dot mrow (qvel_in w) = velocity.
   Proof.
-    intros H1 H2 Hl. rewrite <- sparse_row_is_velocity. f_equal. unfold mrow, krow.
+    clear Hf0 Hown Hfirst. intros H1 H2 Hl. rewrite <- sparse_row_is_velocity. f_equal. unfold mrow, krow.
     rewrite zseq_app, map_app. f_equal.
     - apply map_ext_in. intros k Hk. apply zseq_range in Hk. unfold n1 in Hk. rewrite Z2Nat.id in Hk by lia.
       rewrite Hl by lia. unfold kcol, slot_val. replace (k <? body_dofnum b1) with true by (symmetry; apply Z.ltb_lt; lia). reflexivity.
@@ -469,13 +494,6 @@ Section Edge.
     reflexivity.
   Qed.
 
-  Lemma stored_none (r : list (write R)) a i : (forall x, In x r -> w_arr x <> a) -> stored r a i = None.
-  Proof.
-    induction r as [|x r IH]; intros Hr; simpl; auto. rewrite IH by (intros; apply Hr; right; auto).
-    destruct (String.eqb_spec (w_arr x) a) as [E|E]; auto. exfalso. apply (Hr x); [left|]; auto.
-  Qed.
-  Lemma stored_app_other (l r : list (write R)) a i : (forall x, In x r -> w_arr x <> a) -> stored (l ++ r) a i = stored l a i.
-  Proof. intros Hr. induction l as [|x l IH]; simpl. apply stored_none; auto. rewrite IH. reflexivity. Qed.
 
   (* length = |x_b - x_a| in every branch *)
   Theorem flex_edge_length : 0 <= body_dofnum b1 ->
@@ -489,8 +507,6 @@ Section Edge.
     - intros x Hx. apply in_app_or in Hx. destruct Hx as [Hx|Hx]; apply in_map_iff in Hx; destruct Hx as (k & <- & _); simpl; congruence.
   Qed.
 
-  Lemma zseq_range0 n : forall lo k, In k (zseq lo n) -> lo <= k < lo + Z.of_nat n.
-  Proof. induction n; intros lo k Hk; simpl in *. tauto. destruct Hk as [<-|Hk]. lia. apply IHn in Hk. lia. Qed.
 
   (* the J slots written: exactly rowadr + s for s < dofnum(b1) + dofnum(b2) -- independent of the
      model's flexedge_J_rownnz (which is not even a kernel parameter): a row shorter than that
